@@ -37,6 +37,22 @@ var hostileLinks = []string{
 	">x<", "<", ">", "><", "<>", "<<>>", ">>>", "a>b<c", "</a>;", "</a>;;;", "</a>;=;", "</a>; =x", "</a>; as", "</a>; as=",
 	"</a>; rel=\"preload\\", ",", ",,,", " , <", "</a>,>,<", "<" + strings.Repeat("a", 5000) + ">", strings.Repeat("<", 300), strings.Repeat(">", 300),
 	"</a>; " + strings.Repeat("k=v;", 500), "\t<\t/a\t>\t", "<//evil.test/x>; rel=preload", "<http://evil.test/x>", "< >", "<\x00>",
+	// quoted parameter values: legal ones with the list and parameter separators inside, and broken ones
+	"</style.css>; rel=preload; title=\", main\"", "</a.css>; rel=\"preload\"; as=\"style\"", "</a>; as=\"", "</a>; x=\"\"", "</a>; x=\"\\\"\"", "</a>; title=\"a;b\"; rel=preload", "</a>; \"=\"", "\"", "</a>;\"",
+}
+
+// linkTokens: what Link headers are made of; genLink strings a few of them together at random.
+var linkTokens = []string{"<", ">", ";", ",", "=", "\"", " ", "/a.css", "/b.js", "rel", "preload", "as", "style", "script", "nopush", "title", "\\", "\t", "x", "<>", "; ", ", ", "=\"", "\";"}
+
+func genLink(st *sim.Stream) string {
+	var b strings.Builder
+	if st.Draw(2) == 0 {
+		b.WriteString("</a.css>; rel=preload") // a valid beginning, so that the parser gets as far as the rest
+	}
+	for n := 1 + st.Draw(10); n > 0; n-- {
+		b.WriteString(linkTokens[st.Draw(len(linkTokens))])
+	}
+	return b.String()
 }
 
 type h2req struct {
@@ -91,7 +107,11 @@ func runH2(mode string) sim.RigFunc {
 			q := &h2req{method: "GET", path: "/p", status: 200}
 			if mode == "C19" {
 				for k := 0; k <= st.Draw(3); k++ {
-					q.links = append(q.links, hostileLinks[st.Draw(len(hostileLinks))])
+					if st.Draw(2) == 0 {
+						q.links = append(q.links, genLink(st))
+					} else {
+						q.links = append(q.links, hostileLinks[st.Draw(len(hostileLinks))])
+					}
 					c.Fault("hostile-link-header")
 				}
 			} else {
